@@ -1,6 +1,6 @@
 (* C01 property theorems.  Only statements closed by [exact]; each followed by Print Assumptions.
    All are about the definitions of C01/Model.v that C01/Harness.v evaluates against the implementation. *)
-From Miller Require Import Base.Bytes Base.Record C01.Model C01.ProofsUtil C01.ProofsTsv C01.ProofsDkvp C01.ProofsCsv C01.ProofsCsv2 C01.ModelJson C01.ProofsJson C01.ModelXtab C01.ProofsXtab C01.ModelLite C01.ProofsLite C01.ModelPprint C01.ProofsPprint C01.ProofsBarred C01.ModelMd C01.ProofsMd C01.ModelDkvpx C01.ProofsDkvpx.
+From Miller Require Import Base.Bytes Base.Record C01.Model C01.ProofsUtil C01.ProofsTsv C01.ProofsDkvp C01.ProofsCsv C01.ProofsCsv2 C01.ModelJson C01.ProofsJson C01.ModelXtab C01.ProofsXtab C01.ModelLite C01.ProofsLite C01.ModelPprint C01.ProofsPprint C01.ProofsBarred C01.ModelMd C01.ProofsMd C01.ModelDkvpx C01.ProofsDkvpx C01.ModelIrs C01.ProofsIrs.
 Open Scope char_scope.
 
 (* ---- TSV ---- *)
@@ -285,3 +285,34 @@ Example C01_nonvacuous_dkvpx :
   wf_dkvpx "," "=" [[(B "a,b", B "x=""y"""); (B "k", bs [10;10;13;65;10]%N); (B " c ", B "")]; []; [(B "=", bs [255;44;13]%N)]] = true
   /\ wf_dkvpx ";" ":" [[(B "a", B "1;2:3")]] = true.
 Proof. vm_compute. split; reflexivity. Qed.
+
+(* ---- custom record separators (--ors X written, --irs X read; single- and multi-character line readers) ---- *)
+(* the line reader inverts "every line followed by the separator": any non-empty separator (the last byte may occur earlier in
+   it, as in ";;" -- /repo 5d07e29dc), any number of lines, empty lines included; sufficient condition: no byte of the
+   separator inside a line *)
+Theorem C01_custom_irs_lines :
+  forall irs ls, irs <> [] -> forallb (freeof irs) ls = true -> lines_irs irs (unlines irs ls) = ls.
+Proof. exact lines_irs_unlines. Qed.
+Print Assumptions C01_custom_irs_lines.
+
+(* DKVP and NIDX with a custom record separator: the domains of C01_dkvp_roundtrip / C01_nidx_roundtrip (any IFS/IPS) and
+   no byte of the record separator in any written line *)
+Theorem C01_dkvp_custom_irs_roundtrip :
+  forall irs ifs ips dedupe recs, irs <> [] -> default_irs irs = false -> wf_dkvp ifs ips true recs = true ->
+  forallb (freeof irs) (map (dkvp_line ifs ips) recs) = true ->
+  read_dkvp_irs irs ifs ips false dedupe (write_dkvp_ors ifs ips irs recs) = recs.
+Proof. exact dkvp_irs_roundtrip. Qed.
+Print Assumptions C01_dkvp_custom_irs_roundtrip.
+
+Theorem C01_nidx_custom_irs_roundtrip :
+  forall irs ifs recs, irs <> [] -> default_irs irs = false -> wf_nidx ifs true recs = true ->
+  forallb (freeof irs) (map (fun r => join ifs (values r)) recs) = true ->
+  read_nidx_irs irs ifs true (write_nidx_ors ifs irs recs) = recs.
+Proof. exact nidx_irs_roundtrip. Qed.
+Print Assumptions C01_nidx_custom_irs_roundtrip.
+
+Example C01_nonvacuous_custom_irs :
+  default_irs (B ";;") = false /\ wf_dkvp (B ",") (B "=") true [[(B "a", B "x y"); (B "b", B "")]; []; [(B "c", bs [13;65]%N)]] = true
+  /\ forallb (freeof (B ";;")) (map (dkvp_line (B ",") (B "=")) [[(B "a", B "x y"); (B "b", B "")]; []; [(B "c", bs [13;65]%N)]]) = true
+  /\ wf_nidx (B " ") true [[(B "1", B "p"); (B "2", B "q")]] = true.
+Proof. vm_compute. repeat split; reflexivity. Qed.
